@@ -250,6 +250,20 @@ def estimate(rep):
 def dedup(rep):
     fi = rep.f(DD, "deduplicate_matches_with_anchor")
     pm = parent_map(fi.node)
+    # last-wins idioms: {key(m): m for m in matches} / d[key] = m without a "not seen yet" guard keep the LAST match of every class in the
+    # position of the first - the result is no longer a sub-list of the input in its original order
+    last_wins = []
+    for n in walk_local(fi.node):
+        if isinstance(n, ast.DictComp) and len(n.generators) == 1 and norm(n.generators[0].iter) == fi.params[0] and norm(n.value) == norm(n.generators[0].target):
+            last_wins.append(n)
+    for l_ in [l for l in walk_local(fi.node) if isinstance(l, ast.For) and norm(l.iter) == fi.params[0]]:
+        for st_ in walk_local(l_):
+            if isinstance(st_, ast.Assign) and isinstance(st_.targets[0], ast.Subscript) and norm(st_.value) == norm(l_.target) \
+                    and not any(isinstance(t_, ast.Compare) and isinstance(t_.ops[0], (ast.In, ast.NotIn)) for t_, s_ in guards_of(pm, st_, l_, early=True)):
+                last_wins.append(st_)
+    if last_wins:
+        rep.ob("O11.3", "R7", fi, False, alpha(last_wins[0], fi.node), "a match is dropped only if an earlier match had the same signature (first occurrence kept): "
+               "a mapping keyed by the signature and overwritten by every later match keeps the last one instead", node=last_wins[0])
     loops = [l for l in walk_local(fi.node) if isinstance(l, ast.For) and norm(l.iter) == fi.params[0]]
     rep.need("R7", len(loops), 1, "scan loop in deduplicate_matches_with_anchor")
     lp = loops[0]
